@@ -6,7 +6,6 @@ import (
 	"math"
 	"runtime"
 	"strconv"
-	"strings"
 	"sync"
 	"sync/atomic"
 	"time"
@@ -338,21 +337,6 @@ wait:
 
 // ---------------------------------------------------------------- Coq terms
 
-func coqNList(xs []uint64) string {
-	if len(xs) == 0 {
-		return "[]"
-	}
-	var sb strings.Builder
-	sb.WriteByte('[')
-	for i, x := range xs {
-		if i > 0 {
-			sb.WriteByte(';')
-		}
-		sb.WriteString(strconv.FormatUint(x, 10))
-	}
-	sb.WriteByte(']')
-	return sb.String()
-}
 
 func c20CoqOp(op c20Op) string {
 	switch op.T {
